@@ -425,11 +425,68 @@ def _copy_hook_status(repo: Repo) -> tuple[bool, str, list[str]]:
 # ----------------------------------------------------------------------------------------------- writes in set_state (R1c)
 
 
+def _scope_constant(scope: ast.AST, name: str) -> ast.AST | None:
+    """The value of `name` when the module / class body binds it exactly once, by a plain assignment, and nothing rebinds it
+    (no `global name` in a function, no `<obj>.name = ...` for a class-level constant)."""
+    vals: list[ast.AST | None] = []
+    for n in walk_shallow(scope, into_nested=False):
+        if isinstance(n, ast.Name) and n.id == name and isinstance(n.ctx, (ast.Store, ast.Del)):
+            p_ = parent(n)
+            plain = (isinstance(p_, ast.Assign) and len(p_.targets) == 1 and p_.targets[0] is n) or (isinstance(p_, ast.AnnAssign) and p_.target is n and p_.value is not None)
+            vals.append(p_.value if plain and p_ in scope.body else None)
+    for n in ast.walk(scope):
+        if isinstance(n, (ast.Global, ast.Nonlocal)) and name in n.names:
+            vals.append(None)
+        elif isinstance(scope, ast.ClassDef) and isinstance(n, ast.Attribute) and n.attr == name and isinstance(n.ctx, (ast.Store, ast.Del)):
+            vals.append(None)
+    return vals[0] if len(vals) == 1 else None
+
+
+def _sql_text(e: ast.AST, at: ast.AST, fn: ast.AST, depth: int = 3) -> str | None:
+    """The statement text an execute(...) is given: a literal, an f-string (its literal parts), a concatenation / conditional of
+    those, a straight-line local, or a constant bound once at module / class level of the method's own module. None = unreadable."""
+    e = expand(e, at)
+    if isinstance(e, ast.Constant):
+        return e.value if isinstance(e.value, str) else None
+    if isinstance(e, ast.JoinedStr):
+        return ast.unparse(e)
+    if isinstance(e, ast.BinOp) and isinstance(e.op, (ast.Add, ast.Mod)):
+        l = _sql_text(e.left, at, fn, depth)
+        r = _sql_text(e.right, at, fn, depth) if isinstance(e.op, ast.Add) else ""
+        return None if l is None or r is None else l + r
+    if isinstance(e, ast.IfExp):
+        a, b = _sql_text(e.body, at, fn, depth), _sql_text(e.orelse, at, fn, depth)
+        return None if a is None or b is None else a + " " + b
+    if isinstance(e, ast.Call) and isinstance(e.func, ast.Attribute) and e.func.attr in ("format", "strip"):
+        return _sql_text(e.func.value, at, fn, depth)
+    if isinstance(e, ast.Call) and last(call_name(e)) in ("dedent", "text") and len(e.args) == 1 and not e.keywords:
+        return _sql_text(e.args[0], at, fn, depth)
+    if depth <= 0:
+        return None
+    scopes: list[ast.AST] = []
+    name = None
+    if isinstance(e, ast.Name):
+        name = e.id
+        a = fn
+        while parent(a) is not None:
+            a = parent(a)
+        scopes = [a]
+    elif isinstance(e, ast.Attribute) and isinstance(e.value, ast.Name) and isinstance(parent(fn), ast.ClassDef) and e.value.id in ("self", "cls", parent(fn).name):
+        name = e.attr
+        scopes = [parent(fn)]
+    for sc in scopes:
+        v = _scope_constant(sc, name)
+        if v is not None:
+            return _sql_text(v, v, fn, depth - 1)
+    return None
+
+
 def _is_sql_writer(cls: _Cls, fn: ast.AST, depth: int = 2) -> bool:
     for c in calls(fn):
         if isinstance(c.func, ast.Attribute) and c.func.attr in ("execute", "executemany", "fetch", "fetchrow", "fetchval") and c.args:
-            a0 = c.args[0]
-            txt = a0.value if isinstance(a0, ast.Constant) and isinstance(a0.value, str) else (ast.unparse(a0) if isinstance(a0, ast.JoinedStr) else "")
+            txt = _sql_text(c.args[0], enclosing_stmt(c), fn)
+            if txt is None:
+                raise AnchorError(f"C19.R1: cannot read the SQL text `{ast.unparse(c.args[0])[:60]}` executed in {cls.name}.{getattr(fn, 'name', '?')}")
             if any(w in txt.upper() for w in SQL_WRITE_WORDS):
                 return True
         sm = _self_method_call(c)
@@ -609,6 +666,26 @@ _PE = "packages/llama-index-workflows/src/workflows/events.py"
 
 # Text of SqliteStateStore.set_state on the repaired tree, and its shape before the repair (unlocked, unmerged write on the
 # empty-row path).  Reverting the repair must be detected: C19.R1 here, C20.R1 in c20.py.
+_UPSERT_LITERAL = ("""
+                INSERT INTO workflow_state (run_id, state_json, state_type, state_module, created_at, updated_at)
+                VALUES (?, ?, ?, ?, ?, ?)
+                ON CONFLICT(run_id) DO UPDATE SET
+                    state_json = excluded.state_json,
+                    state_type = excluded.state_type,
+                    state_module = excluded.state_module,
+                    updated_at = excluded.updated_at
+                """)
+_UPSERT_PARAMS = ("                    self._run_id,\n                    state_json,\n                    type(state).__name__,\n                    type(state).__module__,\n"
+                  "                    now,\n                    now,\n")
+_SAVE_HEAD = "    def _save_state(\n        self, state: MODEL_T, conn: sqlite3.Connection | None = None\n    ) -> None:\n"
+_SAVE_PRE = ("        \"\"\"Save state to database.\"\"\"\n        should_close = conn is None\n        if conn is None:\n            conn = self._connect()\n        try:\n"
+             "            now = _utc_now().isoformat()\n            state_json = self._serialize_state(state)\n")
+_SAVE_EXEC_NOW = "            conn.execute(\n                \"\"\"" + _UPSERT_LITERAL + "\"\"\",\n                (\n" + _UPSERT_PARAMS + "                ),\n            )\n"
+_SAVE_EXEC_NAMED = "            upsert_sql = \"\"\"" + _UPSERT_LITERAL + "\"\"\"\n            row = (\n" + _UPSERT_PARAMS + "            )\n            conn.execute(upsert_sql, row)\n"
+_SAVE_TO_SET_STATE = ("            if should_close:\n                conn.commit()\n        finally:\n            if should_close:\n                self._release(conn)\n\n"
+                      "    async def get_state(self) -> MODEL_T:\n        \"\"\"Return a copy of the current state model.\"\"\"\n        state = self._load_state()\n        return state.model_copy()\n\n"
+                      "    async def set_state(self, state: MODEL_T) -> None:\n        \"\"\"Replace or merge into the current state model.\"\"\"\n        async with self._lock:\n"
+                      "            current_state = self._load_state()\n            merged = merge_state(current_state, state)\n")
 _SET_STATE_NOW = '        async with self._lock:\n            current_state = self._load_state()\n            merged = merge_state(current_state, state)\n            self._save_state(merged)  # type: ignore[arg-type]\n'
 _SET_STATE_PRE_FIX = '        conn = self._connect()\n        try:\n            cursor = conn.cursor()\n            cursor.execute(\n                "SELECT state_json FROM workflow_state WHERE run_id = ?",\n                (self._run_id,),\n            )\n            row = cursor.fetchone()\n\n            if row is None:\n                self._save_state(state, conn)\n                conn.commit()\n                return\n\n            current_state = self._deserialize_state(row[0])\n            merged = merge_state(current_state, state)\n            self._save_state(merged, conn)  # type: ignore[arg-type]\n            conn.commit()\n        finally:\n            self._release(conn)\n'
 _HOOK_COPY = "        if not deep:\n            # pydantic's shallow copy shares private attribute values; the dynamic\n            # fields live in `_data`, so give the copy its own top-level dict.\n            copied._data = dict(self._data)\n"
@@ -632,6 +709,14 @@ TWINS = [
          "        cleared = create_cleared_state(type(self._state))\n        await self.set_state(cleared)", None),
     Twin("benign: sqlite set_state merge inlined", _PS, "            current_state = self._load_state()\n            merged = merge_state(current_state, state)\n            self._save_state(merged)",
          "            self._save_state(merge_state(self._load_state(), state))", None),
+    Twin("benign: sqlite upsert statement and its parameters named in locals", _PS, _SAVE_EXEC_NOW, _SAVE_EXEC_NAMED, None),
+    Twin("benign: sqlite upsert statement as a class-level constant", _PS, _SAVE_HEAD + _SAVE_PRE + "            conn.execute(\n                \"\"\"" + _UPSERT_LITERAL + "\"\"\",\n",
+         "    _UPSERT_STATE_SQL = \"\"\"" + _UPSERT_LITERAL + "\"\"\"\n\n" + _SAVE_HEAD + _SAVE_PRE + "            conn.execute(\n                self._UPSERT_STATE_SQL,\n", None),
+    Twin("class-level upsert statement, set_state saves the incoming object unmerged", _PS, _SAVE_HEAD + _SAVE_PRE + _SAVE_EXEC_NOW + _SAVE_TO_SET_STATE + "            self._save_state(merged)",
+         "    _UPSERT_STATE_SQL = \"\"\"" + _UPSERT_LITERAL + "\"\"\"\n\n" + _SAVE_HEAD + _SAVE_PRE + "            conn.execute(self._UPSERT_STATE_SQL, (\n" + _UPSERT_PARAMS + "            ))\n"
+         + _SAVE_TO_SET_STATE + "            self._save_state(state)", "C19.R1"),
+    Twin("named upsert statement, set_state saves the incoming object unmerged", _PS, _SAVE_EXEC_NOW + _SAVE_TO_SET_STATE + "            self._save_state(merged)",
+         _SAVE_EXEC_NAMED + _SAVE_TO_SET_STATE + "            self._save_state(state)", "C19.R1"),
     # ---- R2 breaking
     Twin("memory get_state returns the stored object", _PM, "        return self._state.model_copy()", "        return self._state", "C19.R2"),
     Twin("sqlite get_state memoises the loaded object", _PS, "        state = self._load_state()\n        return state.model_copy()",
